@@ -177,14 +177,44 @@ Proof. apply same_flat_map_arg. Qed.
 Lemma closure_incl g l l' : incl l l' -> incl (closure g l) (closure g l').
 Proof. intros H x. rewrite !In_closure. intros [y [Hy Hx]]. exists y; split; auto. Qed.
 
-Lemma In_keepnew fl l x : In x (keepnew fl l) <-> In x l /\ ~ In x fl.
-Proof. unfold keepnew. rewrite filter_In, negb_true_iff, mem_nat_false. tauto. Qed.
+Lemma In_keepnew fl l x : In x (keepnew fl l) <-> In x l /\ x <> 0 /\ ~ In x fl.
+Proof.
+  unfold keepnew, implied_by. rewrite filter_In, negb_true_iff, orb_false_iff, Nat.eqb_neq, mem_nat_false. tauto.
+Qed.
 
 Lemma keepnew_same fl fl' l l' : same fl fl' -> same l l' -> same (keepnew fl l) (keepnew fl' l').
 Proof. intros H1 H2 x. rewrite !In_keepnew, (H1 x), (H2 x). tauto. Qed.
 
-Lemma keepnew_nil l : keepnew [] l = l.
-Proof. unfold keepnew. induction l; cbn; auto. f_equal; auto. Qed.
+Lemma implied_by_same fl fl' x : same fl fl' -> implied_by fl x = implied_by fl' x.
+Proof. intros H. unfold implied_by. rewrite (mem_nat_same x fl fl' H). auto. Qed.
+
+Lemma same_nil_l (l : list nat) : same [] l -> l = [].
+Proof. intros H. destruct l as [|x l]; auto. destruct (proj2 (H x) (or_introl eq_refl)). Qed.
+
+Lemma is_nil_same (a b : list nat) : same a b ->
+  match a with [] => true | _ => false end = match b with [] => true | _ => false end.
+Proof.
+  intros H. destruct a as [|x a]; [rewrite (same_nil_l _ H); auto|].
+  destruct b as [|y b]; auto. destruct (proj1 (H x) (or_introl eq_refl)).
+Qed.
+
+Lemma celide_same fl fl' d d' l l' : same fl fl' -> same d d' -> same l l' ->
+  same (celide fl d l) (celide fl' d' l').
+Proof.
+  intros H1 Hd H2 x. unfold celide. rewrite !filter_In, (H2 x), (implied_by_same _ _ x H1).
+  pose proof (is_nil_same _ _ Hd) as E. destruct d, d'; try discriminate; tauto.
+Qed.
+
+Lemma filter_id_on' {A} (p : A -> bool) l : (forall x, In x l -> p x = true) -> filter p l = l.
+Proof. induction l as [|x l IH]; cbn; auto. intros H. rewrite (H x) by auto. f_equal. apply IH. auto. Qed.
+
+Lemma celide_nil l : celide [] [] l = l.
+Proof.
+  unfold celide. apply filter_id_on'. intros x _. unfold implied_by. cbn [mem_nat].
+  destruct (Nat.eqb x 0); reflexivity.
+Qed.
+
+
 
 (* ------------------------------------------------------------------ the ledger's impl is inheritance *)
 
@@ -225,7 +255,9 @@ Definition Kinv (L : ledger) : Prop :=
   (forall c r, nth_error (lcs L) c = Some r -> incl (lc_okept r) (lc_oasked r)).
 
 Lemma fresh_now_incl g L c l : incl (fresh_now g L c l) l.
-Proof. intros x H. unfold fresh_now in H. apply filter_In in H. tauto. Qed.
+Proof. intros x H. unfold fresh_now, keepnew in H. apply filter_In in H. tauto. Qed.
+Lemma fresh_cls_incl g L c k l : incl (fresh_cls g L c k l) l.
+Proof. intros x H. unfold fresh_cls, celide in H. apply filter_In in H. tauto. Qed.
 
 Lemma Kinv_set_cls L c r r' :
   Kinv L -> nth_error (lcs L) c = Some r -> lc_bases r' = lc_bases r -> incl (lc_kept r') (lc_asked r') ->
@@ -262,7 +294,7 @@ Proof.
   - destruct (nth_error (lcs L) c) as [r|] eqn:E; auto. destruct (lc_builtin r); auto.
     eapply Kinv_set_cls; eauto; cbn [lc_kept lc_asked lc_okept lc_oasked].
     + destruct K as [_ [K1 _]]. eauto.
-    + intros x Hx. apply filter_In in Hx. destruct Hx as [Hx _]. revert x Hx. apply H.
+    + intros x Hx. unfold keepnew in Hx. apply filter_In in Hx. destruct Hx as [Hx _]. revert x Hx. apply H.
       destruct K as [_ [_ [_ K3]]]. eauto.
 Qed.
 
@@ -271,7 +303,7 @@ Proof.
   intros K Hl. unfold l_declare. destruct (nth_error (lcs L) c) as [r|] eqn:E; auto.
   eapply Kinv_set_cls; eauto; cbn [lc_kept lc_asked lc_okept lc_oasked].
   - destruct K as [_ [K1 _]].
-    apply incl_app; [apply incl_appl; eauto|apply incl_appr; eapply incl_tran; [apply fresh_now_incl|auto]].
+    apply incl_app; [apply incl_appl; eauto|apply incl_appr; eapply incl_tran; [apply fresh_cls_incl|auto]].
   - destruct K as [_ [_ [_ K3]]]. eauto.
 Qed.
 
@@ -483,10 +515,21 @@ Proof.
   apply Inv_class_ordered; auto.
 Qed.
 
-Lemma Inv_class_only g st c l : Inv g st -> Inv g (class_only true g st c l).
+Lemma Inv_set_plain g st c pl : Inv g st -> Inv g (set_plain st c pl).
+Proof.
+  intros I. unfold set_plain. destruct (nth_error (classes st) c) as [r|] eqn:E; auto.
+  destruct I as [W I1 I2 I3]. split; cbn [classes insts cache]; rewrite ?length_upd; auto.
+  - intros d rd b Hd Hin. apply nth_error_upd_inv in Hd. destruct Hd as [[-> [-> _]]|[_ Hd]].
+    + cbn in Hin. eapply W; eauto.
+    + eapply W; eauto.
+  - intros k v Hin. rewrite (I3 _ _ Hin). unfold cflat, cdirect. cbn [classes].
+    erewrite cdirect_f_upd_same; eauto.
+Qed.
+
+Lemma Inv_class_only g st c l pl : Inv g st -> Inv g (class_only true g st c l pl).
 Proof.
   intros I. unfold class_only. destruct (nth_error (classes st) c) as [r|] eqn:E; auto.
-  apply Inv_class_ordered. eapply Inv_set_class; eauto.
+  apply Inv_set_plain. apply Inv_class_ordered. eapply Inv_set_class; eauto.
 Qed.
 
 Lemma provides_spec g st d args st1 k :
@@ -588,6 +631,9 @@ Proof. intros [H _]. apply closure_same. apply sim_direct. auto. Qed.
 Lemma fresh_now_keepnew g L c l : fresh_now g L c l = keepnew (closure g (impl_lo L c)) l.
 Proof. reflexivity. Qed.
 
+Lemma upd_same_id {A} (l : list A) n x : nth_error l n = Some x -> upd l n x = l.
+Proof. revert n; induction l as [|h t IH]; intros [|n] H; cbn in *; try discriminate; [inversion H; auto|f_equal; auto]. Qed.
+
 Lemma R_set_class ev st L c r' l' : R st L -> crel r' l' -> R (set_class ev st c r') (lset_cls L c l').
 Proof. intros [H1 H2] H. split; cbn; auto. apply Forall2_upd; auto. Qed.
 
@@ -598,13 +644,10 @@ Proof.
   - destruct (Forall2_nth_l _ _ _ _ _ (proj1 HR) E) as [rl [E' [Hb [Hi [Hd Hp]]]]]. rewrite E'.
     apply R_set_class; auto.
     split; [|split; [|split]]; cbn [c_bases c_decl c_inherit c_cprov c_meta c_builtin lc_bases lc_kept lc_inherit lc_oasked lc_okept lc_meta lc_builtin]; auto.
-    intro x; split; intro H.
-    + rewrite In_dedup in H. rewrite !in_app_iff, !In_keepnew in H. rewrite fresh_now_keepnew.
-      apply in_app_iff. rewrite In_keepnew. pose proof (Hs x) as Hx. rewrite in_app_iff in Hx.
-      pose proof (cflat_same g st L c HR x). pose proof (Hd x). tauto.
-    + rewrite In_dedup. rewrite !in_app_iff, !In_keepnew. rewrite fresh_now_keepnew in H.
-      apply in_app_iff in H. rewrite In_keepnew in H. pose proof (Hs x) as Hx. rewrite in_app_iff in Hx.
-      pose proof (cflat_same g st L c HR x). pose proof (Hd x). tauto.
+    pose proof (celide_same _ _ _ _ _ _ (cflat_same g st L c HR) Hd Hs) as Hc.
+    intro x. rewrite In_dedup, !in_app_iff. specialize (Hc x). unfold fresh_cls.
+    unfold celide in Hc at 1. rewrite filter_app, in_app_iff in Hc. fold (celide (cflat g st c) (c_decl r) b) in Hc.
+    fold (celide (cflat g st c) (c_decl r) a) in Hc. pose proof (Hd x). tauto.
   - rewrite (Forall2_nth_none _ _ _ _ (proj1 HR) E). auto.
 Qed.
 
@@ -621,10 +664,19 @@ Proof.
   - unfold l_declare. rewrite (Forall2_nth_none _ _ _ _ (proj1 HR) E). auto.
 Qed.
 
-Lemma R_class_only g st L c l lh ll :
-  R st L -> same l ll -> R (class_only true g st c l) (l_only L c lh ll).
+Lemma R_set_plain st L c pl : R st L -> R (set_plain st c pl) L.
 Proof.
-  intros HR Hs. unfold class_only, l_only. destruct (nth_error (classes st) c) as [r|] eqn:E.
+  intros [H1 H2]. unfold set_plain. destruct (nth_error (classes st) c) as [r|] eqn:E; [|split; auto].
+  split; cbn [classes insts]; auto.
+  destruct (Forall2_nth_l _ _ _ _ _ H1 E) as [rl [E' Hc]].
+  rewrite <- (upd_same_id (lcs L) c rl E'). apply Forall2_upd; auto.
+Qed.
+
+Lemma R_class_only g st L c l pl lh ll :
+  R st L -> same l ll -> R (class_only true g st c l pl) (l_only L c lh ll).
+Proof.
+  intros HR Hs. unfold class_only, l_only. destruct (nth_error (classes st) c) as [r|] eqn:E;
+    [apply R_set_plain|].
   - destruct (Forall2_nth_l _ _ _ _ _ (proj1 HR) E) as [rl [E' [Hb [Hi [Hd Hp]]]]]. rewrite E'.
     pose proof (nth_error_lt _ _ _ E) as Hlt.
     unfold class_ordered. cbn [set_class classes]. rewrite nth_error_upd_eq by auto.
@@ -632,10 +684,10 @@ Proof.
     destruct HR as [H1 H2]. split; cbn [classes insts lset_cls lcs los]; auto.
     apply Forall2_upd; auto.
     split; [|split; [|split]]; cbn [c_bases c_decl c_inherit c_cprov c_meta c_builtin lc_bases lc_kept lc_inherit lc_oasked lc_okept lc_meta lc_builtin]; auto.
-    assert (Ec : cflat g (mkS (upd (classes st) c (mkC (c_bases r) [] false (c_cprov r) (c_meta r) (c_builtin r))) (insts st)
+    assert (Ec : cflat g (mkS (upd (classes st) c (mkC (c_bases r) [] false (c_cprov r) (c_meta r) (c_builtin r) [])) (insts st)
                               (evict true (classes st) c (cache st))) c = []).
     { unfold cflat, cdirect. cbn [classes cdirect_f]. rewrite nth_error_upd_eq by auto. reflexivity. }
-    rewrite Ec, !keepnew_nil, !app_nil_r. eapply same_trans; [apply same_dedup|auto].
+    rewrite Ec. cbn [c_decl]. rewrite !celide_nil, !app_nil_r. eapply same_trans; [apply same_dedup|auto].
   - rewrite (Forall2_nth_none _ _ _ _ (proj1 HR) E). auto.
 Qed.
 
@@ -803,9 +855,11 @@ Proof.
 Qed.
 
 Lemma I_providedBy_iff_lemma g st :
-  (forall t i, i_providedBy g st t i = true <-> In i (provided g st t)) /\
-  (forall c i, i_implementedBy g st c i = true <-> In i (implemented g st c)).
-Proof. split; intros; apply existsb_ext_closure. Qed.
+  (forall t i, i_providedBy g st t i = true <-> i = 0 \/ In i (provided g st t)) /\
+  (forall c i, i_implementedBy g st c i = true <-> i = 0 \/ In i (implemented g st c)).
+Proof.
+  split; intros; unfold i_providedBy, i_implementedBy; rewrite orb_true_iff, Nat.eqb_eq, existsb_ext_closure; tauto.
+Qed.
 
 (* ------------------------------------------------------------------ one-step non-interference *)
 
@@ -849,9 +903,22 @@ Proof.
   apply cframe_class_ordered.
 Qed.
 
-Lemma cframe_class_only ev g c st l : cframe c st (class_only ev g st c l).
+Lemma cframe_set_plain c st pl : cframe c st (set_plain st c pl).
+Proof.
+  unfold set_plain. destruct (nth_error (classes st) c) as [r|] eqn:E; [|apply cframe_refl].
+  split; [reflexivity|split].
+  - intros d Hd. unfold cdirect, depends in *. cbn [classes]. split.
+    + apply cdirect_f_upd; auto.
+    + rewrite depends_f_upd; auto.
+  - intros c'. cbn [spec_direct dpb classes]. destruct (Nat.eq_dec c c') as [<-|Hne].
+    + rewrite nth_error_upd_eq by (eapply nth_error_lt; eauto). rewrite E. auto.
+    + rewrite nth_error_upd_ne by auto. auto.
+Qed.
+
+Lemma cframe_class_only ev g c st l pl : cframe c st (class_only ev g st c l pl).
 Proof.
   unfold class_only. destruct (nth_error (classes st) c) as [r|] eqn:E; [|apply cframe_refl].
+  eapply cframe_trans; [|apply cframe_set_plain].
   eapply cframe_trans; [|apply cframe_class_ordered]. eapply cframe_set_class; eauto.
 Qed.
 
@@ -877,7 +944,7 @@ Proof.
       rewrite nth_error_upd_ne by congruence. auto.
   - unfold direct_cls. destruct (nth_error (classes st) c) as [r|] eqn:E; [|split; auto].
     destruct (c_builtin r) eqn:Ebi; [split; auto|].
-    assert (Hd : forall f d, cdirect_f (upd (classes st) c (mkC (c_bases r) (c_decl r) (c_inherit r) (keepnew (closure g (meta_direct r)) args) (c_meta r) false)) f d
+    assert (Hd : forall f d, cdirect_f (upd (classes st) c (mkC (c_bases r) (c_decl r) (c_inherit r) (keepnew (closure g (meta_direct r)) args) (c_meta r) false (c_plain r))) f d
                              = cdirect_f (classes st) f d)
       by (intros; eapply cdirect_f_upd_same; eauto).
     split.
@@ -965,7 +1032,7 @@ Proof. unfold l_declare. destruct (nth_error (lcs L) c); auto. Qed.
 Lemma l_declare_lcs g L L' c lh l : lcs L = lcs L' -> lcs (l_declare g L c lh l) = lcs (l_declare g L' c lh l).
 Proof.
   intros H. unfold l_declare. rewrite <- H. destruct (nth_error (lcs L) c); auto. cbn.
-  rewrite (fresh_now_lcs g L L') by auto. rewrite H. auto.
+  unfold fresh_cls, impl_lo. rewrite H. auto.
 Qed.
 Lemma l_only_los L c lh l : los (l_only L c lh l) = los L.
 Proof. unfold l_only. destruct (nth_error (lcs L) c); auto. Qed.
@@ -1129,7 +1196,7 @@ Qed.
 
 Lemma raises_iff_lemma ev g st t x :
   raises g (step ev g st (NoLongerProvides t x)) (NoLongerProvides t x) = true <->
-  In x (provided g (step ev g st (NoLongerProvides t x)) t).
+  x = 0 \/ In x (provided g (step ev g st (NoLongerProvides t x)) t).
 Proof. cbn [raises]. apply (proj1 (I_providedBy_iff_lemma g _)). Qed.
 
 Lemma class_instance_no_leak_lemma ev g st o :
@@ -1150,23 +1217,23 @@ Qed.
 
 (* the history of finding F1: @implementer(I0) class C; a = C(); directlyProvides(a, I0);
    classImplementsOnly(C, I1); b = C(); directlyProvides(b, I0) *)
-Definition f1_graph : igraph := [[]; []].
+Definition f1_graph : igraph := [[]; [0]; [0]].
 Definition f1_history : list op :=
-  [NewClass [] None false None; Implementer 0 [AI 0]; NewInstance 0; DirectlyProvides (TInst 0) [AI 0];
-   ClassImplementsOnly 0 [AI 1]; NewInstance 0; DirectlyProvides (TInst 1) [AI 0]].
+  [NewClass [] None false None; Implementer 0 [AI 1]; NewInstance 0; DirectlyProvides (TInst 0) [AI 1];
+   ClassImplementsOnly 0 [AI 2]; NewInstance 0; DirectlyProvides (TInst 1) [AI 1]].
 
 Lemma stale_cache_refuted_lemma :
   exists g ops o,
     ~ incl (lo_provided g (lrun g ops) (TInst o)) (provided g (run false g ops) (TInst o)) /\
     ~ same (provided g (run false g ops) (TInst o))
            (provided g (run false g (filter (fun p => negb (other_inst_decl o p)) ops)) (TInst o)) /\
-    (exists k, In ((0, [0]), k) (cache (run false g ops)) /\
-               k <> keepnew (cflat g (run false g ops) 0) [0]).
+    (exists k, In ((0, [1]), k) (cache (run false g ops)) /\
+               k <> keepnew (cflat g (run false g ops) 0) [1]).
 Proof.
   exists f1_graph, f1_history, 1. split; [|split].
-  - intro H. specialize (H 0). vm_compute in H. destruct (H (or_introl eq_refl)) as [E|[]]. discriminate.
-  - intro H. specialize (H 0). vm_compute in H. destruct H as [_ H].
-    destruct (H (or_introl eq_refl)) as [E|[]]. discriminate.
+  - intro H. specialize (H 1). vm_compute in H. destruct (H (or_introl eq_refl)) as [E|[E|[]]]; discriminate.
+  - intro H. specialize (H 1). vm_compute in H. destruct H as [_ H].
+    destruct (H (or_introl eq_refl)) as [E|[E|[]]]; discriminate.
   - exists []. split; [vm_compute; auto|vm_compute; discriminate].
 Qed.
 
